@@ -27,12 +27,20 @@ IDENTITIES = {
     'near-names': {'givenName': ['Alice'], 'givenNameX': ['NEAR-1'], 'mailbox': ['NEAR-2'], 'mai': ['NEAR-3'], 'titles': ['NEAR-4'],
                    'xmail': ['NEAR-5'], 'secret': ['S3CR3T-VALUE']},
     # single values handed over as plain strings; the mail value merely contains the value an SP may ask for
+    # values that are not text (what a directory wrapper may hand over): patterns apply to their text form
+    'typed-values': {'givenName': ['Alice'], 'mail': [4711, True, 'alice@example.org'], 'title': [7], 'secret': ['S3CR3T-VALUE']},
     'string-valued': {'givenName': 'Alice', 'mail': 'xalice@example.org', 'title': 'Dr', 'secret': 'S3CR3T-VALUE'},
 }
 
 
+def txt(x):
+    if isinstance(x, bool):
+        return 'true' if x else 'false'
+    return x if isinstance(x, str) else str(x)
+
+
 def as_list(v):
-    return [v] if isinstance(v, str) else list(v)
+    return [v] if isinstance(v, str) else [txt(x) for x in v]
 
 RESTR = {
     'absent': 'ABSENT',
@@ -78,7 +86,19 @@ BARE_DESCR = ('<md:SPSSODescriptor protocolSupportEnumeration="urn:oasis:names:t
               'Location="https://spx.example/acs11" index="0"/></md:SPSSODescriptor>')
 SP_CATS = {'none': (), 'rs': (RS,), 'coco': (COCO,), 'swamid-half': (SWAMID_RE,), 'swamid-full': (SWAMID_RE, SWAMID_HEI),
            # the same category value listed twice (legal metadata): still only half of the swamid combination
-           'swamid-half-twice': (SWAMID_RE, SWAMID_RE), 'rs+swamid-half-twice': (RS, SWAMID_RE, SWAMID_RE)}
+           'swamid-half-twice': (SWAMID_RE, SWAMID_RE), 'rs+swamid-half-twice': (RS, SWAMID_RE, SWAMID_RE),
+           # category URIs as values of *other* entity attributes (category support, assurance): no membership
+           'rs-as-support': ('@http://macedir.org/entity-category-support', RS, COCO),
+           'coco+rs-as-assurance': (COCO, '@urn:oasis:names:tc:SAML:attribute:assurance-certification', RS)}
+
+
+def member_cats(cats):
+    out = []
+    for c in SP_CATS[cats]:
+        if c.startswith('@'):
+            break
+        out.append(c)
+    return tuple(out)
 QUERY = ('mail', 'title', 'secret', 'sn', 'displayName')       # attributes an AttributeQuery names (aa role)
 
 
@@ -86,10 +106,17 @@ def sp_metadata(decl, cats):
     req = tuple((OID[n], n, r, vals) for n, r, vals in SP_DECL[decl])
     extra = ''
     if SP_CATS[cats]:
-        vals = ''.join('<saml:AttributeValue>%s</saml:AttributeValue>' % c for c in SP_CATS[cats])
+        groups = [['http://macedir.org/entity-category']]
+        for c in SP_CATS[cats]:
+            if c.startswith('@'):
+                groups.append([c[1:]])
+            else:
+                groups[-1].append(c)
+        attrs = ''.join('<saml:Attribute xmlns:saml="urn:oasis:names:tc:SAML:2.0:assertion" Name="%s" '
+                        'NameFormat="urn:oasis:names:tc:SAML:2.0:attrname-format:uri">%s</saml:Attribute>'
+                        % (g[0], ''.join('<saml:AttributeValue>%s</saml:AttributeValue>' % c for c in g[1:])) for g in groups if len(g) > 1)
         extra = ('<md:Extensions><mdattr:EntityAttributes xmlns:mdattr="urn:oasis:names:tc:SAML:metadata:attribute">'
-                 '<saml:Attribute xmlns:saml="urn:oasis:names:tc:SAML:2.0:assertion" Name="http://macedir.org/entity-category" '
-                 'NameFormat="urn:oasis:names:tc:SAML:2.0:attrname-format:uri">%s</saml:Attribute></mdattr:EntityAttributes></md:Extensions>' % vals)
+                 '%s</mdattr:EntityAttributes></md:Extensions>' % attrs)
     md = world.sp_md(requested=req, extra=extra)
     if decl == 'two-descr-second-bare':
         md = md.replace('</md:EntityDescriptor>', BARE_DESCR + '</md:EntityDescriptor>')
@@ -123,6 +150,18 @@ def server(entry, restr, cat, fail, decl, cats, role):
         pol = policy_dict(entry, restr, cat, fail)
         if role == 'idp':
             _c[k] = world.make_idp(TMP[0], [sp_metadata(decl, cats)], policy=pol)
+        elif role == 'idp@md':
+            # one entity serving idp and aa (the aa section without policy); the application has rendered its own
+            # metadata from the configuration object before the first login
+            from saml2_tophat.config import IdPConfig
+            from saml2_tophat.server import Server
+            from saml2_tophat.metadata import entity_descriptor
+            conf = world.idp_config(TMP[0], [sp_metadata(decl, cats)], policy=pol)
+            conf['service']['aa'] = {'endpoints': {'attribute_service': [('https://idpa.example/aa', world.BINDING_SOAP)]}}
+            c = IdPConfig()
+            c.load(conf)
+            _c[k] = Server(config=c)
+            entity_descriptor(_c[k].config)
         else:
             from saml2_tophat.config import Config
             from saml2_tophat.server import Server
@@ -166,9 +205,9 @@ def permitted(identity, restr, cat, decl, cats):
             if key == '':
                 ok = True
             elif isinstance(key, tuple):
-                ok = all(k in SP_CATS[cats] for k in key)
+                ok = all(k in member_cats(cats) for k in key)
             else:
-                ok = key in SP_CATS[cats]
+                ok = key in member_cats(cats)
             if not ok:
                 continue
             al = [a.lower() for a in attrs]
@@ -191,7 +230,7 @@ def permitted(identity, restr, cat, decl, cats):
         for k, v in allowed.items():
             if k.lower() in low:
                 pats = low[k.lower()]
-                new[k] = [x for x in v if (pats is None or any(re.match(p, x) for p in pats))]
+                new[k] = [x for x in v if (pats is None or any(re.match(p, txt(x)) for p in pats))]
         allowed = new
     return allowed
 
@@ -247,12 +286,12 @@ def evaluate(c):
     res = []
     identity = IDENTITIES[c['ident']]
     allowed = permitted(identity, c['restr'], c['cat'], c['decl'], c['cats'])
-    for role in ('idp', 'aa', 'aa+query'):
+    for role in ('idp', 'aa', 'aa+query', 'idp@md'):
         srv = server(c['entry'], c['restr'], c['cat'], c['fail'], c['decl'], c['cats'], role.split('+')[0])
         ident_copy = {k: (v if isinstance(v, str) else list(v)) for k, v in identity.items()}
         nid = saml.NameID(text='subject-1', format=saml.NAMEID_FORMAT_TRANSIENT)
         try:
-            if role == 'idp':
+            if role in ('idp', 'idp@md'):
                 r = srv.create_authn_response(ident_copy, 'req1', ACS_POST, SP_X, name_id=nid, authn={'class_ref': forge.PASSWORD})
             elif role == 'aa':
                 r = srv.create_attribute_response(ident_copy, 'req1', ACS_POST, SP_X, name_id=nid)
